@@ -63,7 +63,7 @@ theorem resolve_did (d : Doc) (k : Id) (s : Option Scope) (m : Method) (h : reso
           exact fin i ((matches_ofId k i).1 hem) m (hq _ _ h)
 
 /-- whatever is resolved is a method embedded in the document -/
-theorem resolve_sound' (d : Doc) (q : Query) (s : Option Scope) (m : Method)
+theorem resolve_embedded (d : Doc) (q : Query) (s : Option Scope) (m : Method)
     (h : resolveMethod d q s = some m) : m ∈ allMethods d := C04.resolve_sound d q s m h
 
 /-- everything `verify_signature` establishes, for the method id `mid`, issuer document `doc`, verification
@@ -83,6 +83,8 @@ structure VerifiedBy (docs : List Doc) (tok : Token) (o : VOpts) (c : Cred) (mid
   /-- it holds a public key, and the signature verifies under that key -/
   hasKey : method.body ≠ 0
   sig : method.body = tok.sigKey
+  /-- (SD-JWT: every supplied disclosure was accepted against the signed claims) -/
+  sd : tok.sdOk = true
   /-- the credential is the one that was signed: the conversion of the token's claims -/
   clSrc : tok.claims = some cl
   conv : tryIntoCredential cl = .ok c
@@ -148,6 +150,12 @@ theorem verify_sound (docs : List Doc) (tok : Token) (o : VOpts) (c : Cred)
               · rw [if_pos hs] at h; cases h
               · rw [if_neg hs] at h
                 have hs' : key = tok.sigKey := by simpa using hs
+                have hsd' : tok.sdOk = true := by
+                  cases hh : tok.sdOk with
+                  | true => rfl
+                  | false => rw [hh] at h; simp at h
+                rw [hsd'] at h
+                simp only [Bool.not_true, Bool.false_eq_true, ↓reduceIte] at h
                 cases hc : tok.claims with
                 | none => rw [hc] at h; cases h
                 | some cl =>
@@ -167,7 +175,7 @@ theorem verify_sound (docs : List Doc) (tok : Token) (o : VOpts) (c : Cred)
                         injection h with h
                         subst h
                         exact ⟨mid, d, m, cl, ⟨hn', hsrc, hdin, hdid, hr,
-                          ((resolve_did d mid o.scope m hr).1).trans hdid.symm, hb, hk.trans hs', hc, ht,
+                          ((resolve_did d mid o.scope m hr).1).trans hdid.symm, hb, hk.trans hs', hsd', hc, ht,
                           by simpa using hi, by simpa using hx⟩⟩
 
 /-- the five validation units, as conditions -/
@@ -331,7 +339,7 @@ theorem unit_error_iff (docs : List Doc) (tok : Token) (c : Cred) (o : VOpts) (s
 def issuerDoc : Doc := ⟨1, [⟨⟨1, 0, some 1⟩, 11⟩], [.refer ⟨1, 0, some 1⟩], [], [], [], [], []⟩
 def goodClaims : Claims := ⟨some 1000, .url 1, none, some 100, some 1, some 2, ⟨none, none, none, none, none, 0⟩, none⟩
 def goodTok : Token := ⟨some (some ⟨1, 0, some 1⟩), none, 11, some goodClaims, true, true, true, false, none,
-  some ⟨true, some (some (some 7)), [some 7], true⟩⟩
+  some ⟨true, some (some (some 7)), [some 7], true⟩, true⟩
 def goodOpts : VOpts := ⟨none, none, some (.rel .auth), 500, 200, some (2, .alwaysSubject), .strict, false⟩
 
 deriving instance DecidableEq for Except
